@@ -124,3 +124,18 @@ PROPS.update({
              "dependency-info files; recovered paths are compared byte for byte, later edits/creations/deletions of those paths must "
              "re-run the command, malformed files must fail it. Non-trivial: discovered dependencies were delivered."),
 })
+
+PROPS["C13"] = {
+    "level": "exploration",
+    "rule": "seeded pairs of observations of one path (missing / file / directory / symlink followed or as link) with one mutation in between "
+            "(none, content same size, content same size AND same mtime, content other size, mtime only, inode replaced only, inode and "
+            "mtime, retype, delete, create, all-zero stat) x the three file-system modes, with short reads injected while checksumming; "
+            "each comparison result is checked against the statement. Non-trivial: a run with at least three distinct mutation kinds.",
+    "components": {"real": ["lib/Basic/FileInfo.cpp", "include/llbuild/Basic/FileInfo.h (FileChecksum, MD5 hasher)",
+                            "lib/Basic/FileSystem.cpp (LocalFileSystem, DeviceAgnosticFileSystem, ChecksumOnlyFileSystem)", "llvm MD5"],
+                   "simulated": ["file system and clock (simfs behind stat/lstat/readlink/fopen/fread)", "short reads in fread"],
+                   "stub": [], "not_run": ["engine, build system, queues"]},
+    "assumptions": ["this property has a clock and I/O but no schedule: it is claimed as exploration over simulated file states only",
+                    "size equality after a retype is taken from the observations themselves"],
+    "budget": {"quick": 30, "thorough": 600},
+}
